@@ -59,11 +59,23 @@ class SheetParser:
                 included = self.row_parser.cell_parser.parse_as_string(
                     input_row[self.include_column], context
                 )
-                if str(included).strip().lower() == "false":
+                if self._is_excluded(included):
                     input_row = {**input_row, self.include_column: "false"}
                     context = None
             row = self.row_parser.parse_row(input_row, context)
         return (row, row_idx) if return_index else row
+
+    @staticmethod
+    def _is_excluded(included):
+        """Whether the row parser will read this inclusion value as False.
+
+        A string is false only if it says "false"; the object a native template
+        ({@ @}) yields is false if it is falsy (None, 0, an empty list, ...).
+        """
+        if isinstance(included, str):
+            return included.strip().lower() == "false"
+
+        return not included
 
     def parse_all(self):
         self.iterator = iter(self.input_rows)
